@@ -51,6 +51,13 @@ func c05(p *core.Prog, r *core.Report) {
 	// the reader dispatches a frame only if both reads of the iteration
 	// succeeded, and every read error ends the loop through the error handler
 	// (shared with C03-R3)
+	// a caller stuck behind a lock never returns: no method re-acquires the
+	// mutex of the object it is called on while that mutex is held (shared
+	// with C04-R6), and only the first stopper waits for the health-check
+	// goroutine to exit
+	r.Rule("C05-R7", "E4 locksets / E6 guards", 2, "no re-entrant lock acquisition on the call path; the wait for the health checker's exit is entered once")
+	noReentrantLock(p, r, p.ComputeLocks(), "C05-R7")
+	c05StopHealthOnce(p, r)
 	r.Rule("C05-R6", "E6 guards/paths", 2, "only completely read frames are dispatched; every read error fails the connection")
 	c03ReaderLoop(p, r, "C05-R6")
 	r.Rule("C05-R5", "E6 provenance", 1, "a retried call's outcome carries nothing of a failed attempt (shared with C18)")
@@ -463,5 +470,37 @@ func c05Budget(p *core.Prog, r *core.Report) {
 			}
 		}
 		r.Check(ok, "C05-R4", fname(f), "handshake runs under the caller's context", p.Pos(f.Pos()), "context (or its WithTimeout child) passed to the handshake", "handshake does not run under the caller's context")
+	}
+}
+
+// c05StopHealthOnce: connectionError (which runs on callers' goroutines too:
+// a failed cancel send, a failed Ping) starts with stopHealthCheck. The wait
+// for the health goroutine's exit inside it is entered only while the health
+// context has not been cancelled yet: later callers return at once instead of
+// queueing behind a health goroutine that may itself be stuck.
+func c05StopHealthOnce(p *core.Prog, r *core.Report) {
+	f := mustFunc(p, r, "", "Connection", "stopHealthCheck")
+	if f == nil {
+		return
+	}
+	n := 0
+	core.EachInstr(f, func(i ssa.Instruction) {
+		u, ok := i.(*ssa.UnOp)
+		if !ok || u.Op != token.ARROW {
+			return
+		}
+		if fl := core.LoadedField(u.X); fl == nil || fl.Name() != "healthCheckDone" {
+			return
+		}
+		n++
+		guarded := factsAt(i.Block()).nilCmp(func(v ssa.Value) bool {
+			c, isC := v.(*ssa.Call)
+			return isC && c.Call.IsInvoke() && c.Call.Method.Name() == "Err"
+		}, true)
+		r.Check(guarded, "C05-R7", fname(f), "wait for the health checker only if it was not stopped before", p.Pos(i.Pos()),
+			"<-healthCheckDone is guarded by healthCheckCtx.Err() == nil", "every caller of connectionError waits for the health-check goroutine's exit, also after it was already stopped: a caller's goroutine (cancel, Ping) is parked behind a health goroutine that may never exit")
+	})
+	if n == 0 {
+		r.Errorf("Connection.stopHealthCheck: no wait on healthCheckDone found")
 	}
 }
